@@ -82,7 +82,7 @@ OnCall(e) == /\ pol' = InitP(pols[e.pid]) /\ pols' = Put(pols, e.pid, InitP(pols
 TokGood(e) ==
   LET after == IF e.called THEN e.after ELSE <<>>
       b     == Branch(pol, st, e.tok, after)
-  IN  /\ st = StOf(e)
+  IN  /\ Logged(st) = StOf(e)
       /\ ~wfail                                   \* after a failed write the loop has returned: no further token
       /\ e.called = (e.tok.t \in {"start", "self"} /\ e.tok.a # <<>> /\ ~Blocked(pol, e.tok.n) /\ Known(pol, e.tok.n))
       /\ WritesMatch(e.writes, EmitB(pol, e.tok, after, b))
@@ -102,7 +102,7 @@ OnTok(e) ==
 
 OnRet(e) ==
   \* the call reports an error exactly when a write failed or the source failed (BM_IO: FailReported)
-  IF st = StOf(e) /\ ~e.panic /\ e.ended /\ (e.err = (wfail \/ e.rerr))
+  IF Logged(st) = StOf(e) /\ ~e.panic /\ e.ended /\ (e.err = (wfail \/ e.rerr))
   THEN l' = l + 1 /\ UNCHANGED <<pol, st, inp, out, div, pols, wfail, last>>
   ELSE Diverge
 
